@@ -159,7 +159,29 @@ func main() {
 	list := flag.Bool("list", false, "list properties with checks")
 	verbose := flag.Bool("v", false, "print every obligation")
 	dump := flag.String("dump", "", "debug: print SSA of pkg:recv:name (loads that package only)")
+	fingerprint := flag.Bool("fingerprint", false, "print the shape fingerprints of the current tree (the content of reference.json)")
+	aliases := flag.Bool("aliases", false, "print the renames detected between reference.json and the current tree")
 	flag.Parse()
+	if *fingerprint || *aliases {
+		if *fingerprint {
+			os.Setenv("VCHECK_NO_ALIAS", "1")
+		}
+		w, err := Load("./...")
+		if err != nil {
+			fmt.Fprintln(os.Stderr, err)
+			os.Exit(2)
+		}
+		if *aliases {
+			for _, l := range curAliases.Log {
+				fmt.Println(l)
+			}
+			return
+		}
+		fp := collectFingerprints(w)
+		b, _ := json.MarshalIndent(fp, "", " ")
+		os.Stdout.Write(b)
+		return
+	}
 	if *dump != "" {
 		parts := strings.Split(*dump, ":")
 		pat := "./" + parts[0]
@@ -224,6 +246,14 @@ func runProp(id, tier string, def *propDef) (code int) {
 		return fail(err.Error())
 	}
 	rep.w = w
+	if curAliases != nil && len(curAliases.Log) > 0 {
+		// renames relative to the tree the rule tables were confirmed on (vcheck/reference.json); the rules go on
+		// reading the reference names
+		rep.Extra["renames_detected"] = curAliases.Log
+		for _, l := range curAliases.Log {
+			fmt.Println("  renamed: " + l)
+		}
+	}
 	defer func() {
 		if p := recover(); p != nil {
 			code = fail(fmt.Sprintf("panic: %v\n%s", p, debug.Stack()))
